@@ -218,13 +218,14 @@ example : Plain toyEnv 5 exCodec exValPlain := by
 
 example : Typed 5 exType exVal := by
   simp [Typed, TypedFields, exType, exVal, GoField.type, isU8n]
+  rfl
 
 example : ∃ r, read toyEnv 10 exCodec (exBytes ++ [255]) (Codec.zero toyEnv exCodec) = .ok (r, [255]) ∧
     normSpec 8 exType false r = normSpecD 7 8 exType false exVal := by
   have hcf : CodecFor exCodec exSchema :=
     .record (.cons (.map .intL) (.cons (.unionOne1 (.pointer .string)) (.cons (.pointer (.array .intI)) .nil))) rfl
   exact value_roundtrip_spec toyEnv toyEnv_laws exType 8 5 8 exCodec exSchema hcf 10 10 10 8 exVal exBytes exBytes
-    [255] exDatum (by rfl) (by simp [Typed, TypedFields, exType, exVal, GoField.type, isU8n]) (by omega) (by omega)
+    [255] exDatum (by rfl) (by simp [Typed, TypedFields, exType, exVal, GoField.type, isU8n]; rfl) (by omega) (by omega)
     (by decide +kernel) (by rfl) (by decide +kernel)
     (by simp [RTOk, exCodec, exVal, FieldsOk, Codec.zero, inRange, Codec.ptrDepth])
     (ne_fuel_of (by decide +kernel))
